@@ -11,7 +11,11 @@ package main
 //	kind=engine agg=… pools=<P> inst=<I> ammo=<N> per=<R> q=<Q> slow=<µs> cancel=<-1|shot> seed=<S>   the real engine.Engine
 //	kind=json  n=<N> q=<Q> seed=<S>
 //	kind=sinkfail agg=phout|jsonlines n=<N> limit=<bytes>   a sink that rejects every write after <limit> bytes, only the final flush writes
-//	kind=proc  sig=INT|TERM at=<ms> rps=<R> procs=<GOMAXPROCS of the subprocess, 0 = default> [res=phout|json]
+//	kind=proc  sig=INT|TERM|FAULT|NONE at=<ms> rps=<R> procs=<GOMAXPROCS of the subprocess, 0 = default> [res=phout|json]
+//
+// round 3: kind=queue … [closeerr=1] [borrow=<P>] (and k=0); kind=sinkfail … [q=<Q>] [closeerr=1] limit=<n>|none;
+// kind=engine … [fail=<shot>] (and inst > 64); kind=seq with related timestamps; sig=FAULT (a second pool fails by
+// itself at the chosen instant), sig=NONE (the run ends by itself).
 
 import (
 	"bytes"
@@ -116,9 +120,30 @@ func genVia(r *rand.Rand) string {
 	return "api"
 }
 
+// deltas between the timestamps of consecutive samples of one run: the same millisecond, the same second, the next
+// second, the same second of the next minute / hour / day, a step back (an instance that was slower to report)
+var seqDeltas = []int64{0, 1_000_000, 999_000_000, 1_000_000_000, 1_001_000_000, 59_000_000_000, 60_000_000_000, 61_000_000_000,
+	3_600_000_000_000, 86_400_000_000_000, -1_000_000, -1_000_000_000, -60_000_000_000, 600_000_000_000}
+
+// tag lengths around the sizes the writers are built with: phout's reused line buffer (1 KiB), the smallest bufio /
+// jsoniter buffer (4 KiB), twice that
+var longTagLens = []int{960, 1000, 1023, 1024, 1025, 4000, 4095, 4096, 4097, 8192, 9000}
+
+func longTag(r *rand.Rand) string {
+	n := longTagLens[r.Intn(len(longTagLens))]
+	b := make([]byte, n)
+	for i := range b {
+		b[i] = byte('a' + (i*7+n)%26)
+	}
+	return string(b)
+}
+
 func seqInput(r *rand.Rand, n int) string {
 	var parts []string
 	via := genVia(r)
+	related := r.Intn(2) == 0
+	long := r.Intn(5) == 0
+	var prev int64
 	for i := 0; i < n; i++ {
 		var f []string
 		for j := 0; j < 10; j++ {
@@ -136,9 +161,28 @@ func seqInput(r *rand.Rand, n int) string {
 		if via == "sparse" && i > 0 && r.Intn(2) == 0 {
 			sid = 0
 		}
-		parts = append(parts, seqToken(genNs(r), tag, sid, f))
+		if long && r.Intn(2) == 0 {
+			tag = longTag(r)
+		}
+		ns := genNs(r)
+		if related && i > 0 {
+			// timestamps of one run are close to each other
+			if d := seqDeltas[r.Intn(len(seqDeltas))]; prev+d >= 1_000_000_000 && (d < 0 || prev <= math.MaxInt64-d) {
+				ns = prev + d
+			} else {
+				ns = prev
+			}
+		} else if related {
+			ns = 1_700_000_000_000_000_000 + r.Int63n(100_000_000_000_000)
+		}
+		prev = ns
+		parts = append(parts, seqToken(ns, tag, sid, f))
 	}
-	return fmt.Sprintf("kind=seq id=%d q=%d via=%s s=%s", r.Intn(2), []int{1, 2, 64}[r.Intn(3)], via, strings.Join(parts, ";"))
+	buf := ""
+	if long {
+		buf = " buf=4096"
+	}
+	return fmt.Sprintf("kind=seq id=%d q=%d via=%s%s s=%s", r.Intn(2), []int{1, 2, 64}[r.Intn(3)], via, buf, strings.Join(parts, ";"))
 }
 
 func sampleInput(r *rand.Rand, ns int64) string {
@@ -282,6 +326,72 @@ func c06Gen(r *rand.Rand, tier string) []string {
 		out = append(out, fmt.Sprintf("kind=engine agg=%s pools=1 inst=%d ammo=%d per=%d q=%d slow=%d cancel=-1 seed=%d disc=%d",
 			agg, []int{1, 3}[r.Intn(2)], ammo, per, 4096, []int{0, 300}[r.Intn(2)], r.Intn(1<<20), []int{2020, 2100, 5000}[r.Intn(3)]))
 	}
+	// ---- round 3
+	nClose, nBorrow, nZero, nCoin, nFailEng, nManyInst := 10, 14, 4, 12, 8, 2
+	if tier == "thorough" {
+		nClose, nBorrow, nZero, nCoin, nFailEng, nManyInst = 300, 600, 40, 400, 200, 12
+	}
+	// the sink's Close fails (after closing) — alone, and together with dropped samples (a queue of 1-2 under 4-32
+	// reporters): the encoder aggregator's error must carry both; phout ignores it
+	for i := 0; i < nClose; i++ {
+		agg := []string{"jsonlines", "jsonlines", "phout"}[r.Intn(3)]
+		g, k, q := []int{1, 4, 32}[r.Intn(3)], []int{1, 7, 40, 150}[r.Intn(4)], []int{1, 2, 64}[r.Intn(3)]
+		if g*k > 3000 {
+			k = 3000 / g
+		}
+		out = append(out, qline(agg, g, k, q)+" closeerr=1")
+	}
+	// samples the reporter lends to the aggregator (core.BorrowedSample) and recycles the moment they come back
+	for i := 0; i < nBorrow; i++ {
+		g, k := []int{1, 2, 4, 16}[r.Intn(4)], []int{3, 20, 120}[r.Intn(3)]
+		q := []int{1, 2, 8, 64, 4096}[r.Intn(5)]
+		out = append(out, qline("jsonlines", g, k, q)+fmt.Sprintf(" borrow=%d", []int{1, 2, 3, 8, 64}[r.Intn(5)]))
+	}
+	// nobody reports anything: the output is empty — also over a file that holds lines of an earlier run
+	for i := 0; i < nZero; i++ {
+		agg := []string{"phout", "jsonlines"}[i%2]
+		l := qline(agg, []int{1, 4}[r.Intn(2)], 0, []int{1, 64}[r.Intn(2)])
+		if i%4 < 2 {
+			l += " sink=file"
+		}
+		out = append(out, l)
+	}
+	// coinciding faults with a KNOWN number of drops: n reports before Run starts into a queue of q, then any of: the
+	// final flush is rejected, the sink's Close fails
+	for i := 0; i < nCoin; i++ {
+		n := []int{1, 2, 5, 9, 40}[r.Intn(5)]
+		q := 1 + r.Intn(n+2)
+		limit := fmt.Sprint(r.Intn(21))
+		if r.Intn(2) == 0 {
+			limit = "none"
+		}
+		out = append(out, fmt.Sprintf("kind=sinkfail agg=jsonlines n=%d limit=%s q=%d closeerr=%d", n, limit, q, r.Intn(2)))
+	}
+	out = append(out, "kind=sinkfail agg=phout n=3 limit=none closeerr=1")
+	// a pool that fails by itself (its gun panics in shoot number `fail`), next to a pool that is fine
+	for i := 0; i < nFailEng; i++ {
+		agg := []string{"phout", "jsonlines"}[r.Intn(2)]
+		pools, inst, ammo, per := 1+r.Intn(2), []int{1, 2, 4}[r.Intn(3)], []int{2, 10, 60}[r.Intn(3)], 1+r.Intn(3)
+		q := []int{4, 64, 4096}[r.Intn(3)]
+		if agg == "phout" && q < ammo*per {
+			q = ammo * per // nobody empties phout's queue after Run returned
+		}
+		out = append(out, fmt.Sprintf("kind=engine agg=%s pools=%d inst=%d ammo=%d per=%d q=%d slow=%d cancel=-1 seed=%d fail=%d",
+			agg, pools, inst, ammo, per, q, []int{0, 200, 1500}[r.Intn(3)], r.Intn(1<<20), 1+r.Intn(ammo)))
+	}
+	// more instances than the pool's result channel buffers (runResultBufSize = 64), all finishing at about the same time
+	for i := 0; i < nManyInst; i++ {
+		agg := []string{"phout", "jsonlines"}[i%2]
+		inst := []int{65, 80, 130}[r.Intn(3)]
+		out = append(out, fmt.Sprintf("kind=engine agg=%s pools=1 inst=%d ammo=%d per=1 q=4096 slow=%d cancel=-1 seed=%d",
+			agg, inst, inst*[]int{1, 2}[r.Intn(2)], []int{0, 300}[r.Intn(2)], r.Intn(1<<20)))
+	}
+	// a pool that never starts an instance (startup schedule without tokens); and one whose provider has no ammo at all
+	for i := 0; i < 2; i++ {
+		agg := []string{"phout", "jsonlines"}[i%2]
+		out = append(out, fmt.Sprintf("kind=engine agg=%s pools=%d inst=0 ammo=%d per=1 q=4 slow=0 cancel=-1 seed=%d", agg, 1+r.Intn(2), r.Intn(3), r.Intn(1<<20)))
+		out = append(out, fmt.Sprintf("kind=engine agg=%s pools=1 inst=%d ammo=0 per=1 q=4 slow=0 cancel=-1 seed=%d", agg, 1+r.Intn(4), r.Intn(1<<20)))
+	}
 	for i := 0; i < nJSON; i++ {
 		n := 1 + r.Intn(6)
 		q := n + r.Intn(4)
@@ -385,6 +495,26 @@ func c06Gen(r *rand.Rand, tier string) []string {
 			}
 			out = append(out, fmt.Sprintf("kind=proc sig=%s at=%d rps=%d procs=%d%s", sig, at, []int{100, 200, 400}[r.Intn(3)], procs, res))
 		}
+		// round 3: the engine fails by itself (a second pool's provider meets a line it cannot decode) while the measured
+		// pool is shooting; and a run that simply ends
+		nFault, nNone := 1, 1
+		if tier == "thorough" {
+			nFault, nNone = 8, 4
+		}
+		for i := 0; i < nFault; i++ {
+			res := ""
+			if i%2 == 1 {
+				res = " res=json"
+			}
+			out = append(out, fmt.Sprintf("kind=proc sig=FAULT at=%d rps=%d procs=%d%s", 250+r.Intn(700), []int{100, 200, 400}[r.Intn(3)], 1-i%2, res))
+		}
+		for i := 0; i < nNone; i++ {
+			res := ""
+			if r.Intn(2) == 1 {
+				res = " res=json"
+			}
+			out = append(out, fmt.Sprintf("kind=proc sig=NONE at=%d rps=%d procs=%d%s", 300+r.Intn(500), []int{100, 400}[r.Intn(2)], r.Intn(2), res))
+		}
 	}
 	return out
 }
@@ -467,6 +597,15 @@ func c06Class(input, obs string) string {
 		if kv["fail"] != "" {
 			c += ":fail"
 		}
+		if kv["closeerr"] == "1" {
+			c += ":closeerr"
+		}
+		if kv["borrow"] != "" {
+			c += ":borrow"
+		}
+		if kv["k"] == "0" {
+			c += ":empty"
+		}
 		if !strings.Contains(obs, "dropped=0 ") {
 			c += ":drops"
 		}
@@ -479,6 +618,15 @@ func c06Class(input, obs string) string {
 		if kv["disc"] != "" {
 			c += ":discard"
 		}
+		if kv["fail"] != "" {
+			c += ":poolfails"
+		}
+		if atoi(kv["inst"]) > 64 {
+			c += ":inst>64"
+		}
+		if atoi(kv["inst"]) == 0 || atoi(kv["ammo"]) == 0 {
+			c += ":nothing-to-do"
+		}
 		if !strings.Contains(obs, "dropped=0 ") {
 			c += ":drops"
 		}
@@ -487,6 +635,12 @@ func c06Class(input, obs string) string {
 		return "json"
 	case "sinkfail":
 		c := "sinkfail:" + kv["agg"]
+		if kv["q"] != "" || kv["closeerr"] == "1" || kv["limit"] == "none" {
+			c += ":coincide"
+			if strings.Contains(obs, "+") {
+				c += ":several"
+			}
+		}
 		if strings.Contains(obs, "err=nil") && strings.Contains(obs, "failed=1") {
 			c += ":swallowed"
 		}
@@ -542,6 +696,6 @@ func main() {
 	}
 	drv.Main(&drv.Prop{
 		ID: "C06", Gen: c06Gen, Run: c06Run, Class: c06Class, Workers: workers, Timeout: 150 * time.Second,
-		Rule: "samples with boundary/random int64 fields, unicode/odd tags, ids on/off and boundary timestamps through the real phout aggregator (public setters, raw array, or only the non-zero values set on a sample taken from the pool of released ones) compared byte-exactly with the model; G∈{1,4,32,…} reporter goroutines × queue sizes {1,2,64,…} × flush intervals through the real phout and jsonlines aggregators with the cancel right after the last Report; random JSON values through jsonlines; sequences of different samples through one phout aggregator (whole file byte-exact); the same with the cancel in the middle of the reporting (reports completed before the cancel must be there), with the real file sink over stale content, with a sink that fails after N bytes (must still be closed; when only the final flush writes, Run's error, the close and the accepted bytes are predicted by the failing-sink model); the real engine.Engine with 1-2 pools × instances × ammo over the real aggregators, judged the moment Engine.Run returns nil or, cancelled mid-run, after Engine.Wait, also with a schedule that is overdue so that the engine itself reports discarded-shoot samples; the pandora binary built from main.go (phout, or jsonlines over the file sink) stopped by SIGINT/SIGTERM at a PRNG-chosen instant; a case is non-trivial when it produced at least one line or a panic",
+		Rule: "samples with boundary/random int64 fields, unicode/odd tags, ids on/off and boundary timestamps through the real phout aggregator (public setters, raw array, or only the non-zero values set on a sample taken from the pool of released ones) compared byte-exactly with the model; G∈{1,4,32,…} reporter goroutines × queue sizes {1,2,64,…} × flush intervals through the real phout and jsonlines aggregators with the cancel right after the last Report; random JSON values through jsonlines; sequences of different samples through one phout aggregator (whole file byte-exact); the same with the cancel in the middle of the reporting (reports completed before the cancel must be there), with the real file sink over stale content, with a sink that fails after N bytes (must still be closed; when only the final flush writes, Run's error, the close and the accepted bytes are predicted by the failing-sink model); the real engine.Engine with 1-2 pools × instances × ammo over the real aggregators, judged the moment Engine.Run returns nil or, cancelled mid-run, after Engine.Wait, also with a schedule that is overdue so that the engine itself reports discarded-shoot samples; the pandora binary built from main.go (phout, or jsonlines over the file sink) stopped by SIGINT/SIGTERM at a PRNG-chosen instant; round 3: the same queue runs with a sink whose Close fails (alone and together with drops: the members of Run's error are compared with the error-join model), with samples lent by the reporter (core.BorrowedSample) and recycled the moment they come back, with nobody reporting anything (also over a stale file); a known number of drops (n reports into a queue of q before Run starts) coinciding with a rejected final flush and/or a failing Close; sequences whose timestamps are related (same ms / second / second of the next minute, hour, day, a step back) and tags longer than the line buffer (1 KiB) and the writer's buffer (4 KiB); an engine pool whose gun panics in a chosen shoot next to a healthy pool (judged after cancel + Engine.Wait, as cli.go does); more instances (65-130) than the pool's result channel buffers; the pandora binary with a second pool whose provider fails at a chosen instant (named pipe), and a run that ends by itself; a case is non-trivial when it produced at least one line or a panic",
 	})
 }
